@@ -475,7 +475,7 @@ func (p *Program) loopMods(x *Exec, fr *Frame, h *ssa.BasicBlock) ([]string, []s
 				if fr.depth == 0 && fr.contract != nil {
 					var names []string
 					if callee := in.Common().StaticCallee(); callee != nil {
-						names = []string{callee.Name(), funcKey(callee)}
+						names = calleeNames(callee)
 					} else if in.Common().IsInvoke() {
 						names = []string{in.Common().Method.Name()}
 					}
